@@ -327,6 +327,9 @@ def c09_order_search(tier, seed):
         ops = [{"op": "simulate", "light": True}]
         for p in perms:
             ops += [{"op": "rebuild"}, _cmp({"op": "simulate", "ranks": list(p), "light": True}, 1, "C09", "lg")]
+        # and with plain BaseTask objects, whose hashes are memory addresses
+        for _ in range(2):
+            ops += [{"op": "rebuild", "plain": True}, _cmp({"op": "simulate", "light": True}, 1, "C09", "lg")]
         out.append(_hist(cfg, "c09order", ops))
     return out
 
